@@ -174,6 +174,8 @@ template<typename T, typename EntityTag>
 std::optional<PropertyPtr<T, EntityTag>>
 ResourceManager::create_persistent_property(std::string _name, const T &_def)
 {
+    if (_name.empty())
+        return {}; // persistent implies shared, shared properties must have a name
     auto prop = internal_find_property<T, EntityTag>(_name);
     if (prop)
         return {};
@@ -186,6 +188,8 @@ template<typename T, typename EntityTag>
 std::optional<PropertyPtr<T, EntityTag>>
 ResourceManager::create_shared_property(std::string _name, const T &_def)
 {
+    if (_name.empty())
+        return {}; // shared properties must have a name (cf. set_shared)
     auto prop = internal_find_property<T, EntityTag>(_name);
     if (prop)
         return {};
